@@ -16,15 +16,15 @@ def fast_syntax_error() -> None:
     from graphql.language import lexer, parser, schema_coordinate_lexer
     from graphql.language.lexer import Lexer
 
-    class FastSyntaxError(GraphQLSyntaxError):
-        def __init__(self, source, position, description):  # noqa: D107
-            Exception.__init__(self, "Syntax Error")
-            self.message = "Syntax Error"
-            self.position = position
-            self.description = "stubbed"
+    from graphql.error import GraphQLError
 
-        def __str__(self):
-            return "Syntax Error (stubbed)"
+    class FastSyntaxError(GraphQLSyntaxError):
+        """Same class hierarchy, same source/positions/locations; only the description text
+        (which formats source characters into a message) is replaced by a constant."""
+
+        def __init__(self, source, position, description):  # noqa: D107
+            GraphQLError.__init__(self, "Syntax Error: <stubbed>", source=source, positions=[position])
+            self.description = "<stubbed>"
 
     for m in (lexer, parser, schema_coordinate_lexer):
         if hasattr(m, "GraphQLSyntaxError"):
